@@ -311,3 +311,11 @@ impl ErrorHook {
 			.ok();
 	}
 }
+
+#[cfg(watchexec_verif)]
+impl Watchexec {
+	/// Verification seam: the event queue's sender, as the event sources hold it.
+	pub fn verif_event_input(&self) -> priority::Sender<Event, Priority> {
+		self.event_input.clone()
+	}
+}
